@@ -57,16 +57,16 @@ theorem validateCfg_none_iff (W : World) (fuel : Nat) (s : Schema) (path : Strin
     level down) every nested configuration. -/
 theorem validate_ok_means (W : World) (fuel : Nat) (s : Schema) (path : String) (c : Cfg)
     (hok : validateCfg W (fuel + 1) s path c = none) (hen : featureEnabled s c = true) :
-    (∀ k fs m v, (k, SField.leaf fs m) ∈ s.fields → m.isInclude = false → c.get k = some (.val v) → ∃ v', validate W.fe.toEnv fs v = .ok v') ∧
+    (∀ k fs m v, (k, SField.leaf fs m) ∈ s.fields → c.get k = some (.val v) → ∃ v', validate W.fe.toEnv fs v = .ok v') ∧
     (∀ k s' sub, ((k, SField.sub s') ∈ s.fields ∨ ∃ kf, (k, SField.ctype s' kf) ∈ s.fields) → c.get k = some (.node sub) →
         validateCfg W fuel s' (joinPath path k) sub = none) ∧
     (∀ v ∈ s.validators, schemaValidator v c = true) := by
   rcases (validateCfg_none_iff W fuel s path c).1 hok with h | ⟨hall, hvs⟩
   · rw [hen] at h; cases h
   · refine ⟨?_, ?_, hvs⟩
-    · intro k fs m v hmem hinc hget
+    · intro k fs m v hmem hget
       have := hall (k, .leaf fs m) hmem
-      simp only [fieldProblem, hinc, Bool.false_eq_true, if_false, hget] at this
+      simp only [fieldProblem, hget] at this
       cases hv : validate W.fe.toEnv fs v with
       | ok v' => exact ⟨v', rfl⟩
       | error e => simp [hv] at this
